@@ -550,6 +550,15 @@ theorem frame_optSection (K) (rep : Option Nat) (pre post : Nat → B → B) (vi
     simp only [optSection]
     exact Frame.trans (Frame.trans (hpre k _ rfl) (hvisit k _ _ rfl)) (hpost k _ rfl)
 
+theorem mem_elseKey (i : Nat) (ss : List Stmt) (k : Nat) (h : elseRep i ss = some k) : ck k ∈ elseKey i ss := by
+  unfold elseRep at h
+  unfold elseKey
+  split at h
+  · cases h
+  · rename_i hne
+    cases h
+    simp [hne]
+
 theorem mem_repKey (ss : List Stmt) (k : Nat) (h : ss.head?.map Stmt.id = some k) : ck k ∈ repKey ss := by
   cases ss with
   | nil => simp at h
@@ -636,17 +645,17 @@ theorem frame_visitStmt : ∀ (s : Stmt) (σ : List Scope) (b : B) (a : Acc), Fr
       exact Frame.trans (frame_basicExprs _ σ items b a) (frame_visitStmts body σ _ _)
   | .try_ i body handlers orelse final, σ, b, a => by
     simp only [visitStmt, stmtKeys']
-    have kro : ∀ k, k ∈ repKey orelse → k ∈ repKey orelse ++ (repKey handlers ++ (keysL body ++ (keysL handlers ++ (keysL orelse ++ keysL final)))) :=
+    have kro : ∀ k, k ∈ elseKey i orelse → k ∈ elseKey i orelse ++ (repKey handlers ++ (keysL body ++ (keysL handlers ++ (keysL orelse ++ keysL final)))) :=
       fun k hk => List.mem_append.mpr (Or.inl hk)
-    have krh : ∀ k, k ∈ repKey handlers → k ∈ repKey orelse ++ (repKey handlers ++ (keysL body ++ (keysL handlers ++ (keysL orelse ++ keysL final)))) :=
+    have krh : ∀ k, k ∈ repKey handlers → k ∈ elseKey i orelse ++ (repKey handlers ++ (keysL body ++ (keysL handlers ++ (keysL orelse ++ keysL final)))) :=
       fun k hk => List.mem_append.mpr (Or.inr (List.mem_append.mpr (Or.inl hk)))
-    have kb : ∀ k, k ∈ keysL body → k ∈ repKey orelse ++ (repKey handlers ++ (keysL body ++ (keysL handlers ++ (keysL orelse ++ keysL final)))) :=
+    have kb : ∀ k, k ∈ keysL body → k ∈ elseKey i orelse ++ (repKey handlers ++ (keysL body ++ (keysL handlers ++ (keysL orelse ++ keysL final)))) :=
       fun k hk => List.mem_append.mpr (Or.inr (List.mem_append.mpr (Or.inr (List.mem_append.mpr (Or.inl hk)))))
-    have kh : ∀ k, k ∈ keysL handlers → k ∈ repKey orelse ++ (repKey handlers ++ (keysL body ++ (keysL handlers ++ (keysL orelse ++ keysL final)))) :=
+    have kh : ∀ k, k ∈ keysL handlers → k ∈ elseKey i orelse ++ (repKey handlers ++ (keysL body ++ (keysL handlers ++ (keysL orelse ++ keysL final)))) :=
       fun k hk => List.mem_append.mpr (Or.inr (List.mem_append.mpr (Or.inr (List.mem_append.mpr (Or.inr (List.mem_append.mpr (Or.inl hk)))))))
-    have ko : ∀ k, k ∈ keysL orelse → k ∈ repKey orelse ++ (repKey handlers ++ (keysL body ++ (keysL handlers ++ (keysL orelse ++ keysL final)))) :=
+    have ko : ∀ k, k ∈ keysL orelse → k ∈ elseKey i orelse ++ (repKey handlers ++ (keysL body ++ (keysL handlers ++ (keysL orelse ++ keysL final)))) :=
       fun k hk => List.mem_append.mpr (Or.inr (List.mem_append.mpr (Or.inr (List.mem_append.mpr (Or.inr (List.mem_append.mpr (Or.inr (List.mem_append.mpr (Or.inl hk)))))))))
-    have kf : ∀ k, k ∈ keysL final → k ∈ repKey orelse ++ (repKey handlers ++ (keysL body ++ (keysL handlers ++ (keysL orelse ++ keysL final)))) :=
+    have kf : ∀ k, k ∈ keysL final → k ∈ elseKey i orelse ++ (repKey handlers ++ (keysL body ++ (keysL handlers ++ (keysL orelse ++ keysL final)))) :=
       fun k hk => List.mem_append.mpr (Or.inr (List.mem_append.mpr (Or.inr (List.mem_append.mpr (Or.inr (List.mem_append.mpr (Or.inr (List.mem_append.mpr (Or.inr hk)))))))))
     refine Frame.trans ?_ (B.frame_endStatement _ _ i)
     refine Frame.trans ?_ (frame_optSection _ _ _ _ _ _ ?_ ?_ ?_)
@@ -654,10 +663,10 @@ theorem frame_visitStmt : ∀ (s : Stmt) (σ : List Scope) (b : B) (a : Acc), Fr
     refine Frame.trans ?_ (frame_optSection _ _ _ _ _ _ ?_ ?_ ?_)
     · exact Frame.trans (B.frame_beginStatement _ b i) ((frame_visitStmts body _ _ _).weaken kb)
     · intro k b' hk
-      have hk' := kro _ (mem_repKey orelse k hk)
+      have hk' := kro _ (mem_elseKey i orelse k hk)
       exact Frame.trans (B.frame_enterCondSection _ _ k hk') (B.frame_newCondBranch _ _ k hk')
     · intro k b' hk
-      have hk' := kro _ (mem_repKey orelse k hk)
+      have hk' := kro _ (mem_elseKey i orelse k hk)
       exact Frame.trans (B.frame_newCondBranch _ _ k hk') (B.frame_exitCondSection _ _ k hk')
     · intro k b' a' _
       exact (frame_visitStmts orelse _ b' a').weaken ko
